@@ -223,3 +223,4 @@ _extend('C14', 'ADDED (units K-undo revised, F-cascade): the undo of a change wo
 _extend('C10', 'ADDED (unit K-uqprobe): the key with which UPDATE probes a CREATE UNIQUE INDEX index for the new row is built from the columns the index names, prefix-truncated like the stored keys, in definition order (fix 51980647: it was not truncated).')
 _extend('C10', 'ADDED (unit K-uqcreate): CREATE UNIQUE INDEX is refused exactly when two rows of the table share a NULL-free key of the index (fix 7890b305: it used to succeed over duplicates).')
 _extend('C10', 'ADDED (unit U-stmtkeys): the statement-level duplicate check of a multi-row UPDATE files the NULL-free, prefix-truncated keys of each new row under their slot and refuses the statement exactly when one is already filed by an earlier row (fix 215562c9: prefix indexes were skipped).')
+_extend('C18', 'ADDED (unit P-data): a successful read_data leaves no table whose user-defined indexes lag behind the rows it loaded (the index-driven half of the round trip for the binary and compressed loaders; fix 065c2cf2). Repaired on the way: load_json ignored the prefix length of index columns (fix f8a62156). Still lost by the formats (observed, DESIGN 9c): constraint and DEFAULT definitions, the prefix length in the binary formats, spatial indexes, views, tables outside the current schema.')
